@@ -63,8 +63,12 @@ pub fn gen_c12_base(src: &mut Src<'_>) -> C12Base {
 	if scoped {
 		let owned_key = src.chance(100);
 		fault_step = steps.len();
-		steps.push((0, Step::Scoped { target, read, try_, owned_key, body: vec![BodyOp::Touch] }));
-		api = format!("scoped_{}{}", if try_ { "try_" } else { "" }, if read { "read" } else { "lock" });
+		let sc = Step::Scoped { target, read, try_, owned_key, body: vec![BodyOp::Touch] };
+		// the same call issued from a destructor while an earlier panic of the
+		// thread unwinds (the library then runs with std::thread::panicking())
+		let in_dtor = src.chance(60);
+		steps.push((0, if in_dtor { Step::UnwindingDrop { inner: Box::new(sc) } } else { sc }));
+		api = format!("scoped_{}{}{}", if try_ { "try_" } else { "" }, if read { "read" } else { "lock" }, if in_dtor { "@destructor-during-unwind" } else { "" });
 	} else {
 		let acq = steps.len();
 		steps.push((0, Step::Acquire { target, read, try_ }));
